@@ -20,7 +20,7 @@ PROPS = ["Name", "Size", "Encrypted", "Tags", "Policy", "Zone"]
 STR_PLAIN = ["us-west-2a", "my-bucket", "x", "arn:aws:iam::123:role/r", "a b", "v1.2"]
 STR_ODD = {"leading-space": " lead", "trailing-space": "trail ", "inner-quote": 'say "hi"', "hash": "a #b", "slash": "a/b/c", "unicode": "grüße-日本",
            "digits": "0042", "bool-like": "true", "backslash": "^\\d+$", "single-quote": "it's", "empty": "", "tab": "a\tb", "brace": "{x}", "bracket": "[x]",
-           "comma": "a, b", "colon": "k: v", "float-like": "1.50"}
+           "comma": "a, b", "colon": "k: v", "float-like": "1.50", "double-space": "data  volume", "many-spaces": "a   b    c"}
 
 
 def gen_value(rng, classes):
@@ -43,8 +43,17 @@ def gen_value(rng, classes):
         classes.add("bool")
         return rng.choice([True, False])
     if r < 0.9:
+        if rng.random() < 0.4:
+            # strings with unusual content nested inside a list value (tags, statements): they are part of the value as well
+            c = rng.choice(sorted(STR_ODD))
+            classes.add("list-with-string:" + c)
+            return rng.choice([[{"Key": "Name", "Value": STR_ODD[c]}], [STR_ODD[c], "c"]])
         classes.add("list")
         return rng.choice([[1, 2], ["a", "b"], [{"Key": "k", "Value": "v"}], []])
+    if rng.random() < 0.4:
+        c = rng.choice(sorted(STR_ODD))
+        classes.add("map-with-string:" + c)
+        return rng.choice([{"Description": STR_ODD[c]}, {"Statement": [{"Sid": STR_ODD[c], "Effect": "Allow"}]}])
     classes.add("map")
     return rng.choice([{"a": 1}, {"Version": "2012", "Statement": [{"Effect": "Allow"}]}, {}])
 
